@@ -401,33 +401,53 @@ fn str_prefix6(ost: Option<String>) -> Result<Option<Prefix6>, Error> {
         .flatten())
 }
 
+/* Adds `n * scale` seconds to `ret`, refusing a unit with no number before it and values that do not fit. */
+fn duration_add(
+    ret: std::time::Duration,
+    n: Option<u64>,
+    scale: u64,
+    st: &str,
+) -> Result<std::time::Duration, Error> {
+    n.ok_or_else(|| Error::InvalidConfig(format!("Expected a number before the unit in duration '{}'", st)))?
+        .checked_mul(scale)
+        .and_then(|secs| ret.checked_add(std::time::Duration::from_secs(secs)))
+        .ok_or_else(|| Error::InvalidConfig(format!("Duration '{}' is too large", st)))
+}
+
 fn str_duration(ost: Option<String>) -> Result<Option<std::time::Duration>, Error> {
     ost.map(|st| {
-        let mut num = None;
+        let mut num: Option<u64> = None;
         let mut ret = Default::default();
         for c in st.chars() {
             match c {
                 '0'..='9' => {
+                    let digit = c as u64 - '0' as u64;
                     if let Some(n) = num {
-                        num = Some(n * 10 + c as u64 - '0' as u64);
+                        num = Some(
+                            n.checked_mul(10)
+                                .and_then(|n| n.checked_add(digit))
+                                .ok_or_else(|| {
+                                    Error::InvalidConfig(format!("Duration '{}' is too large", st))
+                                })?,
+                        );
                     } else {
-                        num = Some(c as u64 - '0' as u64);
+                        num = Some(digit);
                     }
                 }
                 's' => {
-                    ret += std::time::Duration::from_secs(num.take().unwrap());
+                    ret = duration_add(ret, num.take(), 1, &st)?;
                 }
                 'm' => {
-                    ret += std::time::Duration::from_secs(num.take().unwrap() * 60);
+                    ret = duration_add(ret, num.take(), 60, &st)?;
                 }
                 'h' => {
-                    ret += std::time::Duration::from_secs(num.take().unwrap() * 3600);
+                    ret = duration_add(ret, num.take(), 3600, &st)?;
                 }
                 'd' => {
-                    ret += std::time::Duration::from_secs(num.take().unwrap() * 86400);
+                    ret = duration_add(ret, num.take(), 86400, &st)?;
                 }
                 'w' => {
-                    ret += std::time::Duration::from_secs(num.take().unwrap() * 7 * 86400);
+                    ret = duration_add(ret, num.take(), 7 * 86400, &st)?;
                 }
                 x if x.is_whitespace() => (),
                 '_' => (),
@@ -439,8 +459,8 @@ fn str_duration(ost: Option<String>) -> Result<Option<std::time::Duration>, Erro
                 }
             }
         }
-        if let Some(n) = num {
-            ret += std::time::Duration::from_secs(n);
+        if num.is_some() {
+            ret = duration_add(ret, num, 1, &st)?;
         }
         Ok(ret)
     })
